@@ -781,6 +781,10 @@ case("C11", "C11-m-logmap", "mutant", "the parsed key/value map of the --host fl
 case("C11", "C11-h-loguser", "benign", "the warning also shows the user name of the --host flag (another entry of the parsed map)",
      edits=[("cmd/regctl/root.go", "\t\t\t\t\tslog.String(\"host\", hKV[\"reg\"]),\n", "\t\t\t\t\tslog.String(\"host\", hKV[\"reg\"]),\n\t\t\t\t\tslog.String(\"user\", hKV[\"user\"]),\n")])
 
+# C17.R11 / D24
+case("C17", "C17-D24", "mutant", "historical defect D24 re-introduced: BlobDelete never closes its response, BlobGet returns a status error without closing it",
+     patch="selftest/regress/D24.diff", expect=[("C17.R11", "BlobDelete", "response of Do closed"), ("C17.R11", "BlobGet", "response of Do closed")])
+
 def main():
     bad = 0
     for pid, cases in CASES.items():
